@@ -18,7 +18,7 @@ namespace Hannibal
 
 structure C05St where
   hold : HoldSt
-  inflight : List Nat          -- in-flight try_send / try_call / try_halt / Caller::call (they own a strong handle)
+  inflight : List Nat          -- in-flight try_send / try_force_send / try_call / try_halt / Caller::call (they own a strong handle)
   stopIssued : Bool
   restartsPending : Nat
   failure : Bool
@@ -29,7 +29,7 @@ structure C05St where
 
 /-- operations that own a strong handle of their own while in flight -/
 def holderKind : OpKind → Bool
-  | .trySend _ | .tryCall _ | .tryHalt | .callw _ => true
+  | .trySend _ | .tryForce _ | .tryCall _ | .tryHalt | .callw _ => true
   | _ => false
 
 def issuesStop : Label → Bool
@@ -98,7 +98,8 @@ def monC05qOrig (c : MonCtx) : Mon C05qSt where
                           || (match l with | .cbAbandon _ => c.cfg.failOnTimeout | _ => false),
                         terminated := st.terminated || l.terminates }
     match l with
-    | .begin o _ (.send m) | .begin o _ (.trySend m) => some { st with sends := (o, m) :: st.sends }
+    | .begin o _ (.send m) | .begin o _ (.trySend m) | .begin o _ (.tryForce m) =>
+      some { st with sends := (o, m) :: st.sends }
     | .ret o .ok =>
       (match lookup o st.sends with
        | some m => some { st with sentOk := m :: st.sentOk }
@@ -127,7 +128,7 @@ def next05q (c : MonCtx) (st : C05qSt) (l : Label) : C05qSt :=
       | .cbEnd .stopped true => true
       | _ => st.graceful)
     sends := (match l with
-      | .begin o _ (.send m) | .begin o _ (.trySend m) => (o, m) :: st.sends
+      | .begin o _ (.send m) | .begin o _ (.trySend m) | .begin o _ (.tryForce m) => (o, m) :: st.sends
       | _ => st.sends)
     sentOk := (match l with
       | .ret o .ok => (match lookup o st.sends with | some m => m :: st.sentOk | none => st.sentOk)
